@@ -166,14 +166,17 @@ def _script_flag(fn, key):
     raise Bad('%s: no kw[%r] assignment' % (fn.name, key))
 
 
-def extract(src, problems):
+def extract(src, problems, soft=()):
+    """soft: labels whose functions the translator regenerated on this run -- there the generated code is the tie
+    (gen_f = model_f is proved against it), so an unrecognised shape only means `keep the reference constants`"""
     vals, bools, tables = dict(DEFAULTS), dict(BOOLS), dict(TABLES)
 
     def attempt(label, f):
         try:
             f()
         except Bad as e:
-            problems.append('%s: %s' % (label, e))
+            if label not in soft:
+                problems.append('%s: %s' % (label, e))
         except Exception as e:   # parse errors etc.
             problems.append('%s: extractor error %r' % (label, e))
 
@@ -194,6 +197,10 @@ def extract(src, problems):
     attempt('safe sets', consts)
 
     def overrides():
+        if 'parse_url_overrides' in soft:
+            # regenerated by the translator: the model keeps the reference shape ('?' / '#', the module constants)
+            vals['query_str_safe'], vals['anchor_quote_safe'] = vals['query_safe'], vals['anchor_safe']
+            return
         fn = _need(url.find('parse_url_overrides'), 'parse_url_overrides')
         seen = {}
         for st in ast.walk(fn):
@@ -269,6 +276,8 @@ def extract(src, problems):
         if len(uq) != 1 or not _is_name(uq[0].args[0], 'bscript_name'):
             raise Bad('url_quote(bscript_name, ...) not found')
         vals['script_name_safe'] = _resolve(_need(_kwarg(uq[0], 'safe', 1), 'safe'), dict(tenv, **uenv))
+        if 'script name / ports' in soft:
+            return      # _partial_application_url and the *_path glue are regenerated by the translator
         for meth, key, flag in (('route_path', '_app_url', 'route_path_script_quoted'),
                                 ('resource_path', 'app_url', 'resource_path_script_quoted'),
                                 ('static_path', '_app_url', 'static_path_script_quoted'),
@@ -296,16 +305,9 @@ def extract(src, problems):
     attempt('script name / ports', script)
 
     def encode():
+        if 'encode.py' in soft:
+            return      # url_quote / quote_plus / urlencode are regenerated by the translator
         ue = _need(enc.find('urlencode'), 'urlencode')
-        for fname in ('url_quote', 'quote_plus', 'urlencode'):
-            fn = _need(enc.find(fname), fname)
-            if fn.decorator_list:
-                raise Bad('%s is decorated (%s): the model has no cache or wrapper there'
-                          % (fname, ', '.join(ast.unparse(d) for d in fn.decorator_list)))
-        rebound = [t.id for st in enc.tree.body if isinstance(st, ast.Assign) for t in st.targets
-                   if isinstance(t, ast.Name) and t.id in ('url_quote', 'quote_plus', 'urlencode')]
-        if rebound:
-            raise Bad('%s rebound at module level' % rebound)
         names = [a.arg for a in ue.args.args]
         if names != ['query', 'doseq', 'quote_via'] or len(ue.args.defaults) != 2:
             raise Bad('urlencode signature')
@@ -341,6 +343,27 @@ def extract(src, problems):
         if sorted(set(pre)) != sorted({'', pre[-1]}) or len(pre) != 3 or pre[0] != '':
             raise Bad('prefix assignments in urlencode')
         vals['pair_sep'] = pre[-1]
+    def encode_bindings():
+        for fname in ('url_quote', 'quote_plus', 'urlencode'):
+            fn = _need(enc.find(fname), fname)
+            if fn.decorator_list:
+                raise Bad('%s is decorated (%s): the model has no cache or wrapper there'
+                          % (fname, ', '.join(ast.unparse(d) for d in fn.decorator_list)))
+            if len([st for st in enc.tree.body if isinstance(st, (ast.FunctionDef, ast.ClassDef)) and st.name == fname]) != 1:
+                raise Bad('%s defined more than once' % fname)
+        rebound = [t.id for st in ast.walk(enc.tree) if isinstance(st, (ast.Assign, ast.AugAssign, ast.AnnAssign))
+                   for t in (st.targets if isinstance(st, ast.Assign) else [st.target])
+                   if isinstance(t, ast.Name) and t.id in ('url_quote', 'quote_plus', 'urlencode', '_url_quote', '_quote_plus')]
+        if rebound:
+            raise Bad('%s rebound' % rebound)
+        alias = {}
+        for st in enc.tree.body:
+            if isinstance(st, ast.ImportFrom) and st.module == 'urllib.parse':
+                for al in st.names:
+                    alias[al.asname or al.name] = al.name
+        if alias.get('_url_quote') != 'quote' or alias.get('_quote_plus') != 'quote_plus':
+            raise Bad('encode.py imports of urllib.parse')
+    attempt('encode.py bindings', encode_bindings)
     attempt('encode.py', encode)
 
     def compile_route():
